@@ -1,5 +1,7 @@
 """C16 Operations and views round-trip and are content-addressed (spec/Encoding)."""
 import copy
+import json
+from concurrent.futures import ThreadPoolExecutor
 
 import vf
 from checks import clifn_common as cc
@@ -11,7 +13,7 @@ META = dict(
               'encoding laws on the model; the real SimpleOpStore writes/reads each member and TLC judges the records',
     text='TLC enumerates every view and operation that differs from a sparse or a rich base value in at most 2 (quick) / 3 '
          '(thorough) of 18 view slots / 11 operation slots (0-2 heads; local targets absent, normal, 3-term with absent add or '
-         'remove, 5-term; remote bookmarks and tags x {new, tracked} x {absent, normal, conflicted}; empty remote views; git refs; '
+         'remove, 5-term, and conflicted targets with REPEATING terms - [a,b,b], [b,b,a], [a,a,a], [a,absent,absent], [absent,absent,a], 5 terms with one cancelling pair - in every ref category and both remote states; remote bookmarks and tags x {new, tracked} x {absent, normal, conflicted}; empty remote views; git refs; '
          'git heads of the default and a second workspace; 0-2 workspaces; parents, timestamps incl. negative and > 2^31 s, tz, '
          'string classes, attributes, commit predecessors None/empty/non-empty) and proves on the model that the legacy bookmark '
          'form and the whole protobuf form are lossless on valid views. Each member is written through the real SimpleOpStore, '
@@ -28,7 +30,7 @@ META = dict(
 READY = True
 LEVEL = META["category"]
 
-NEG = [("legacy_state", "InvView"), ("legacy_conflict", "InvView"), ("githead", "InvView"), ("op_preds", "InvOp")]
+NEG = [("legacy_state", "InvView"), ("legacy_conflict", "InvView"), ("githead", "InvView"), ("simplify", "InvView"), ("op_preds", "InvOp")]
 
 
 def nontrivial(r):
@@ -56,31 +58,54 @@ def self_test(ctx, recs):
     i = first(lambda x: x["op"] == "view" and x["written"] != v["written"])
     i["id"] = v["id"]
     i["dup_of"] = 1
-    p = cc.write_ndjson(ctx.path("corrupt.ndjson"), [v, o, i])
-    got = cc.expect_bad("Trace_Encoding", p, "ViewReadEqualsWritten")
-    for want in ("OpReadEqualsWritten", "EqualIdsDifferentValues", "IdIsContentHash"):
+    # a read-back whose repeating-term targets were simplified by hand ([c1, c2, c2] -> [c1], [c1, absent, absent] -> [c1])
+    s1 = first(lambda x: x["op"] == "view" and x["written"]["local"]["b1"] == ["c1", "c2", "c2"])
+    s1["read"]["local"]["b1"] = ["c1"]
+    s1["dup_of"] = 0
+    s2 = first(lambda x: x["op"] == "view" and x["written"]["remotes"]["git"]["tags"]["b1"]["t"] == ["c1", "", ""])
+    s2["read"]["remotes"]["git"]["tags"]["b1"]["t"] = ["c1"]
+    s2["dup_of"] = 0
+    p = cc.write_ndjson(ctx.path("corrupt.ndjson"), [v, o, i, s1, s2])
+    j = vf.tlc_judge("Trace_Encoding", p, chunk=10 ** 9)
+    got = {v for _, v in j["bad"]}
+    for want in ("ViewReadEqualsWritten", "OpReadEqualsWritten", "EqualIdsDifferentValues", "IdIsContentHash"):
         if want not in got:
             raise vf.ToolError("judge did not flag corrupted record with %s: %s" % (want, got))
-    ctx.cov["tlc_runs"].append({"run": "judge self-test (3 corrupted records)", "outcome": "rejected as required: " + ", ".join(sorted(got))})
+    for k in (3, 4):
+        if (k, "ViewReadEqualsWritten") not in j["bad"]:
+            raise vf.ToolError("judge accepted a hand-simplified read-back (record %d): %s" % (k, j["bad"]))
+    ctx.cov["tlc_runs"].append({"run": "judge self-test (5 corrupted records, 2 of them hand-simplified read-backs of repeating-term targets)", "outcome": "rejected as required: " + ", ".join(sorted(got))})
 
 
 def run(ctx):
     # 1. TLC: enumerate the family, check the laws on the model (design level)
-    cfg = ctx.q("MC_Encoding_c16", "MC_Encoding_c16_thorough")
-    cases, r = vf.tlc_generate("MC_Encoding", cfg, workers=ctx.q(8, 12), timeout=ctx.q(600, 2400))
-    ctx.add_mc(r, cfg)
-    if len(cases) != r["distinct"]:
-        raise vf.ToolError("generator printed %d members for %d states" % (len(cases), r["distinct"]))
+    cfgs = ctx.q(["MC_Encoding_c16"], ["MC_Encoding_c16_thorough", "MC_Encoding_c16"])
+    uniq = {}
+    for cfg in cfgs:
+        cs, r = vf.tlc_generate("MC_Encoding", cfg, workers=ctx.q(8, 12), timeout=ctx.q(900, 2400))
+        ctx.add_mc(r, cfg)
+        if len(cs) != r["distinct"]:
+            raise vf.ToolError("generator printed %d members for %d states" % (len(cs), r["distinct"]))
+        for c in cs:
+            uniq.setdefault(json.dumps(c, sort_keys=True), c)
+    cases = list(uniq.values())
     for bug, inv in NEG:
         vf.tlc_mc("MC_Encoding", "MC_Encoding_neg_" + bug, expect_violation=inv, workers=4, timeout=300)
         ctx.cov["tlc_runs"].append({"run": "negative:" + bug, "outcome": "fails as required (%s)" % inv})
-    # 2. S->I: the real SimpleOpStore on every member (order depends on the seed)
+    # 2. S->I: the real SimpleOpStore on every member (order depends on the seed); views and operations are
+    #    independent families: two harness runs and two judges in parallel
     cases = cc.shuffled(cases, ctx.seed)
-    inp = cc.write_ndjson(ctx.path("cases.ndjson"), cases)
-    trace = ctx.path("c16.ndjson")
-    ctx.harness("encoding", ["views", "--in", inp, "--out", trace], env=cc.scratch_env(), timeout=3000)
-    j = cc.judge(ctx, "Trace_Encoding", trace, nontrivial_fn=nontrivial, timeout=ctx.q(900, 3000))
-    recs = j["records"]
+    vf.build("encoding")
+
+    def one(kind):
+        inp = cc.write_ndjson(ctx.path("cases-%s.ndjson" % kind), [c for c in cases if c["kind"] == kind])
+        trace = ctx.path("c16-%s.ndjson" % kind)
+        ctx.harness("encoding", ["views", "--in", inp, "--out", trace], env=cc.scratch_env(), timeout=3000)
+        return cc.judge(ctx, "Trace_Encoding", trace, nontrivial_fn=nontrivial, timeout=ctx.q(1200, 3000))
+
+    with ThreadPoolExecutor(max_workers=2) as ex:
+        js = list(ex.map(one, ["view", "op"]))
+    recs = js[0]["records"] + js[1]["records"]
     if len(recs) != len(cases):
         raise vf.ToolError("harness wrote %d records for %d cases" % (len(recs), len(cases)))
     # 3. anti-vacuity of the judge
@@ -95,7 +120,8 @@ def run(ctx):
     ctx.cov["views"] = n_view
     ctx.cov["operations"] = n_op
     ctx.cov["rule"] = ("cases = every view / operation within %d slot changes of a sparse or a rich base value (TLC state space of "
-                       "MC_Encoding), each written through SimpleOpStore, read by a fresh store and written again to a second store; "
+                       "MC_Encoding; thorough = the triple-wise family with two repeating-term targets per category united with the pairwise family "
+                       "with all six), each written through SimpleOpStore, read by a fresh store and written again to a second store; "
                        "non-trivial = a view with a conflicted target or any remote ref, an operation with several parents, attributes "
                        "or a predecessor map; distinct by abstract value" % ctx.q(2, 3))
     for x in recs:
